@@ -1551,7 +1551,9 @@ def OP_CHECK_ADAPTER_SIG(tape: Tape, stack: Stack, cache: dict) -> None:
     ca = clamp_scalar(H_small(RT, X, m)) # H(R + T || X || m)
     caX = nacl.bindings.crypto_scalarmult_ed25519_noclamp(ca, X) # X^H(R + T || X || m)
     RcaX = aggregate_points((R, caX)) # R + X^H(R + T || X || m)
-    stack.put(b'\xff' if bytes_are_same(sa_G, RcaX) else b'\x00')
+    # a non-canonical sa (>= L, e.g. bit 255 set) denotes the same point: not accepted
+    canonical = nacl.bindings.crypto_core_ed25519_scalar_reduce(sa + bytes(32)) == sa
+    stack.put(b'\xff' if canonical and bytes_are_same(sa_G, RcaX) else b'\x00')
 
 def OP_DECRYPT_ADAPTER_SIG(tape: Tape, stack: Stack, cache: dict) -> None:
     """Takes tweak scalar t (top), nonce point R, and signature adapter
